@@ -7,7 +7,7 @@
     Text is ASCII [string]; the input is the list of physical lines as [read_line] returns them
     (each with its trailing newline except possibly the last).  Nothing is tidied up: the
     scanner's cut at the first "//" of the remaining line, the [starts_with] tests on directives,
-    the match set computed on the un-substituted line in [replace_all], are all reproduced. *)
+    the per-round match set of [replace_all], are all reproduced. *)
 From Coq Require Import String Ascii List Bool Arith NArith.
 From CC Require Import Base.Str.
 Import ListNotations.
@@ -241,7 +241,8 @@ Definition apply_macro (m : macro) (s : string) : string * bool :=
 
 Definition macro_matches (m : macro) (s : string) : bool := snd (apply_macro m s).
 
-(** [Context::replace_all]: the set of macros to apply is computed on the ORIGINAL text [s] *)
+(** [Context::replace_all]: in each round, the macros to apply are those that match the text as it
+    stood at the BEGINNING of the round ([orig] below is that text) *)
 Fixpoint apply_all (ms : list macro) (orig res : string) (changed : bool) : string * bool :=
   match ms with
   | [] => (res, changed)
@@ -256,7 +257,7 @@ Fixpoint replace_rounds (n : nat) (ms : list macro) (orig res : string) : string
   | O => res
   | S k =>
       let '(res', c) := apply_all ms orig res false in
-      if c then replace_rounds k ms orig res' else res'
+      if c then replace_rounds k ms res' res' else res'
   end.
 
 Definition replace_all (ms : list macro) (s : string) : string := replace_rounds 64 ms s s.
